@@ -33,7 +33,9 @@ type batchArgs struct {
 	Acts  int    `json:"actions"`
 }
 
-var groupNames = []string{"alpha", "beta", "gamma/sub"}
+// "moved" carries a redirect: a websocket join to it is answered 'joined redirect' and must
+// leave no trace in the group (the HTTP-level redirect is bypassed by a direct join)
+var groupNames = []string{"alpha", "beta", "gamma/sub", "moved"}
 
 var users = []struct{ name, pw, role string }{
 	{"op1", "pw-op1", "op"}, {"op2", "pw-op2", "op"}, {"pres1", "pw-pres1", "present"}, {"pres2", "pw-pres2", "present"},
@@ -52,6 +54,9 @@ func writeGroups(s *vsrv.Server) {
 		}
 		if i == 1 {
 			d["unrestricted-tokens"] = true
+		}
+		if g == "moved" {
+			d["redirect"] = "https://elsewhere.example/group/moved/"
 		}
 		s.WriteGroup(g, d)
 	}
@@ -331,6 +336,44 @@ func (sc *scenario) join(s *slot, r *rand.Rand) {
 		return
 	}
 	reply, ok := s.c.WaitForFrom(from, func(m vclient.Msg) bool {
+		return m.Str("type") == "joined" && (m.Str("kind") == "join" || m.Str("kind") == "fail" || m.Str("kind") == "redirect")
+	}, 30*time.Second)
+	if !ok {
+		if closed, _ := s.c.Closed(); !closed {
+			sc.run.Inconclusive("no reply to join within the watchdog")
+			sc.bad = true
+		}
+		return
+	}
+	if reply.Str("kind") == "join" {
+		s.joined, s.group, s.user = true, g, user
+		sc.run.Count("joins_accepted", 1)
+	} else {
+		sc.run.Count("joins_refused", 1)
+		if reply.Str("kind") == "redirect" {
+			sc.run.Count("joins_redirected", 1)
+			// galene admits the client, answers 'redirect' and removes it again; the queued
+			// 'joined join' and 'joined leave' of that short membership follow the answer.
+			// Let them pass so that they are not taken for the reply to a later join
+			// (whether the client really is gone is decided at the next checkpoint).
+			s.c.WaitForFrom(from, func(m vclient.Msg) bool {
+				return m.Str("type") == "joined" && m.Str("kind") == "leave" && m.Str("group") == g
+			}, 3*time.Second)
+		}
+	}
+}
+
+// joinAs joins group g with the given (valid) credentials and waits for the answer.
+func (sc *scenario) joinAs(s *slot, g, user, pw string) {
+	sc.mu.Lock()
+	s.cur.tried[g] = true
+	sc.mu.Unlock()
+	sc.note(fmt.Sprintf("%s join %s as %s", s.c.ID, g, user))
+	from := s.c.EventCount()
+	if s.c.Send(vclient.Msg{"type": "join", "kind": "join", "group": g, "username": user, "password": pw}) != nil {
+		return
+	}
+	reply, ok := s.c.WaitForFrom(from, func(m vclient.Msg) bool {
 		return m.Str("type") == "joined" && (m.Str("kind") == "join" || m.Str("kind") == "fail")
 	}, 30*time.Second)
 	if !ok {
@@ -346,6 +389,54 @@ func (sc *scenario) join(s *slot, r *rand.Rand) {
 	} else {
 		sc.run.Count("joins_refused", 1)
 	}
+}
+
+// storm: every client leaves and rejoins ONE group in a tight loop, each from its own
+// goroutine, so that departures and arrivals overlap inside the server all the time: a
+// joiner that slips between "who must be told that L is gone" and L's removal would keep L
+// for good.  Judged by the ordinary checkpoint afterwards.
+func (sc *scenario) storm(r *rand.Rand, cycles int) {
+	g := groupNames[r.IntN(3)]
+	for _, s := range sc.slots {
+		if s.c != nil {
+			if closed, _ := s.c.Closed(); closed {
+				s.c, s.joined = nil, false
+			}
+		}
+		if s.c == nil {
+			sc.connect(s, r)
+		}
+	}
+	var wg sync.WaitGroup
+	for i, s := range sc.slots {
+		if s.c == nil {
+			continue
+		}
+		wg.Add(1)
+		go func(i int, s *slot) {
+			defer wg.Done()
+			u := users[i%len(users)]
+			for k := 0; k < cycles && !sc.bad; k++ {
+				if closed, _ := s.c.Closed(); closed {
+					s.joined = false
+					return
+				}
+				if s.joined {
+					sc.note(fmt.Sprintf("%s leaves %s", s.c.ID, s.group))
+					if s.c.Leave(s.group) {
+						s.joined = false
+						sc.run.Count("leaves", 1)
+					} else {
+						return
+					}
+				}
+				sc.joinAs(s, g, u.name, u.pw)
+				sc.run.Eval(1)
+				sc.run.Count("storm_cycles", 1)
+			}
+		}(i, s)
+	}
+	wg.Wait()
 }
 
 func (sc *scenario) act(s *slot, r *rand.Rand) {
@@ -422,7 +513,7 @@ func (sc *scenario) act(s *slot, r *rand.Rand) {
 
 // orderedJoins: joins performed strictly one after another must be seen in that order by every bystander.
 func (sc *scenario) orderedJoins(r *rand.Rand) {
-	g := groupNames[r.IntN(len(groupNames))]
+	g := groupNames[r.IntN(3)]
 	by, err := vclient.Dial(sc.srv, fmt.Sprintf("b%ds%dwatch", sc.batch, sc.idx))
 	if err != nil {
 		return
@@ -500,6 +591,10 @@ func runScenario(run *vk.Run, srv *vsrv.Server, batch uint64, idx int, actions i
 		}
 		wg.Wait()
 		sc.checkpoint(phase == 3)
+	}
+	if idx%2 == 0 && !sc.bad {
+		sc.storm(r, 40)
+		sc.checkpoint(true)
 	}
 	members := 0
 	for _, s := range sc.slots {
